@@ -28,5 +28,9 @@ def main():
         print(n, results[n].get('detected'), results[n].get('violation'), results[n].get('wall_s'), flush=True)
         json.dump(results, open(path, 'w'), indent=1, sort_keys=True)
     assert sh('git -C /repo status --porcelain').stdout.strip() == ''
+    # the evidence files now describe the last patched tree: rewrite them from the clean tree
+    for prop in sorted({n[:3] for n in names}):
+        r = sh(f'./check {prop} --tier {tier}', cwd='/verif', timeout=3600)
+        print('clean tree:', r.stdout.strip().splitlines()[-1] if r.stdout.strip() else r.stderr[-200:], flush=True)
 if __name__ == '__main__':
     main()
